@@ -187,7 +187,34 @@ def replay_resource(prop, result, fresh, wd, info):
     return False
 
 
-HOOKS = {'resource': replay_resource, 'ringbuffer': replay_ringbuffer, 'array': replay_array, 'arrayb': replay_array}
+def replay_localeinfo(prop, result, fresh, wd, info):
+    exe = os.path.join(wd, 'li_replay')
+    cmd = ['g++', '-std=c++20', '-g', '-O0', '-fsanitize=address,undefined', '-fno-sanitize-recover=undefined', '-I', os.path.join(REPO, 'include'),
+           os.path.join(ROOT, 'replay', 'li_replay.cpp'), os.path.join(REPO, 'src', 'LocaleInfo.cpp'), '-o', exe]
+    rc, out = _run(cmd, timeout=600)
+    if rc != 0:
+        info['native'] = 'replay driver does not build against the current tree: ' + out[-1500:]
+        return False
+    # inputs derived from the shape of the counterexample classes the contract distinguishes: long parts, '.' before '_',
+    # unknown language / unknown country / empty parts, well-formed names and codes
+    inputs = ['@repeat:70:_GB', 'en_@repeat:70:', '@repeat:63:_GB', '@repeat:64:_GB', 'en.x_GB', 'a.b_c.d', 'zz_GB', 'en_ZZ', '_GB', 'en_', '_', 'en',
+              'en_GB', 'en_GB.UTF-8', 'English_United States.1252', 'hu_HU', 'Chinese_China', 'zz_United Kingdom', 'en_GB_x', '.en_GB']
+    env = dict(os.environ, ASAN_OPTIONS='detect_leaks=0:abort_on_error=0')
+    for a in inputs:
+        arg = a
+        if '@repeat:' in a and not a.startswith('@repeat:'):
+            pre, _, rest = a.partition('@repeat:')
+            n, _, tail = rest.partition(':')
+            arg = pre + 'a' * int(n) + tail
+        rc, o = _run([exe, arg], timeout=60, env=env)
+        if rc != 0 and ('CONFIRMED' in o or 'ERROR: AddressSanitizer' in o or 'runtime error' in o):
+            info['native'] = {'input': a, 'outcome': 'CONFIRMED', 'output': '\n'.join([l for l in o.split('\n') if 'CONFIRMED' in l or 'ERROR' in l or 'runtime error' in l][:4])}
+            return True
+    info['native'] = {'outcome': 'NOT-REPRODUCED', 'tried': inputs}
+    return False
+
+
+HOOKS = {'localeinfo': replay_localeinfo, 'resource': replay_resource, 'ringbuffer': replay_ringbuffer, 'array': replay_array, 'arrayb': replay_array}
 
 
 def make_replay(prop, result, fresh, wd, tier):
